@@ -159,6 +159,14 @@ def deep_snapshot(g):
         if isinstance(o, UniverseLaws):
             rec.append(nm(o.applies_to))
         snap.append(rec)
+    # observable behaviour: what neighbors() answers for every vertex (under the caching flag in force) is
+    # part of "the graph as seen by the user"; a read-only call must not reorder or change it
+    beh = []
+    for v in g.verts:
+        for d, u in ((oracles.FORWARD, oracles.ERROR), (oracles.ANY, oracles.NEIGHBOR)):
+            r = oracles.outcome(helpers.neighbors, v, d, u, None)
+            beh.append(g.names(r[1]) if r[0] == "ok" else r[1].__name__)
+    snap.append(["neighbors-battery", [], beh])
     return snap
 
 
@@ -171,6 +179,9 @@ def _val(g, v):
 def snap_diff(a, b):
     for x, y in zip(a, b):
         if x != y:
+            if x[0] == "neighbors-battery":
+                k = next(i for i, (p, q) in enumerate(zip(x[2], y[2])) if p != q)
+                return f"neighbors() of v{k // 2} now answers {y[2][k]} instead of {x[2][k]}"
             if x[1] != y[1]:
                 return f"{x[0]} attribute names {sorted(set(y[1]) - set(x[1]))} appeared / {sorted(set(x[1]) - set(y[1]))} vanished"
             return f"{x[0]}: {x} -> {y}"
@@ -310,7 +321,8 @@ def run(ctx):
                 continue
             spec = specs[i]
         else:
-            spec = graphs.rand_spec(rng, nmax=8 if quick else 20, mmax=12 if quick else 40, ecls=graphs.ECLS_ALL,
+            spec = graphs.rand_spec(rng, nmax=8 if quick else 20, mmax=12 if quick else 40,
+                                    ecls=graphs.ECLS_ALL if i % 2 else graphs.ECLS_DU,
                                     uni_mode="all" if rng.random() < 0.6 else "rand")
             if not spec.get("uni"):
                 spec["uni"] = [j for j in range(len(spec["verts"])) if rng.random() < 0.8] or [0]
